@@ -87,6 +87,14 @@ Click(x) ==
     /\ last' = <<"click", x, exp>>
     /\ UNCHANGED tid
 
+\* the reader follows the link of node x after another tree of the site has overwritten the state cookie (its name is fixed): the
+\* state this tree finds is not its own and counts as none; the link itself names the path down to x
+ClickOther(x) ==
+    /\ Visible(exp, x) /\ Linkable(exp, x)
+    /\ exp' = IF x \in exp THEN Path(x) ELSE Path(x) \cup {x}
+    /\ last' = <<"click_other", x, exp>>
+    /\ UNCHANGED tid
+
 ExpandAllEff   == exp' = {x \in Nodes : x # 1 /\ HasKids(x)}
 CollapseAllEff == exp' = {}
 ReloadEff      == exp' = IF Opt.single THEN {} ELSE exp
@@ -95,7 +103,7 @@ ExpandAll   == ExpandAllEff /\ last' = <<"expand_all", 0, exp>> /\ UNCHANGED tid
 CollapseAll == CollapseAllEff /\ last' = <<"collapse_all", 0, exp>> /\ UNCHANGED tid
 Reload      == last[1] # "reload" /\ ReloadEff /\ UNCHANGED tid /\ last' = <<"reload", 0, exp>>
 
-Next == (\E x \in Nodes : Click(x)) \/ ExpandAll \/ CollapseAll \/ Reload
+Next == (\E x \in Nodes : Click(x) \/ ClickOther(x)) \/ ExpandAll \/ CollapseAll \/ Reload
 
 Spec == Init /\ [][Next]_vars
 
